@@ -136,6 +136,9 @@ pub struct Validate {
 	/// where the CA reaches port 443 of the identifier: "tcp:<host>:<port>" or "unix:<dir>" (socket <dir>/tacd_<identifier>.sock)
 	pub tls: Option<String>,
 	pub patience_ms: u64,
+	/// the validator offers TLS 1.2 at most (the lowest RFC 8737 allows) instead of every version of the local OpenSSL
+	#[serde(default)]
+	pub tls_max12: bool,
 }
 
 #[derive(Clone, Debug, Serialize, Deserialize, PartialEq)]
